@@ -816,7 +816,9 @@ func areaInstance(r *Rng, n int, dir string) (*AreaOut, error) {
 				// snapshot or dbi_options.override_create_flags give the application's DBI: the dupsort hack relies on it
 				for _, d := range after {
 					if strings.HasPrefix(d.Name, shadowPrefix) && d.Flags&^strategy.LMDBIntegerKeyFlag != 0 {
-						for _, pid := range []string{"C20", "C18"} {
+						// (every property that speaks about merged state relies on it: with duplicate keys in the shadow DBI a
+						// Put adds a version instead of replacing one)
+						for _, pid := range []string{"C20", "C18", "C02", "C03", "C04", "C11"} {
 							out.Oracle = append(out.Oracle, OracleFailure{pid, "shadow-dbi-is-plain", fmt.Sprintf("after LoadOnce the shadow DBI %s has LMDB flags %#x (only MDB_INTEGERKEY may be transferred to a shadow DBI)", d.Name, d.Flags), in})
 						}
 					}
@@ -1008,6 +1010,9 @@ func areaInstance(r *Rng, n int, dir string) (*AreaOut, error) {
 	syncer.VerifSetClock(nil)
 	eofValueProbe(out, dir)
 	if err := boundarySizesSend(out); err != nil {
+		return nil, err
+	}
+	if err := v1DeletionScenario(out); err != nil {
 		return nil, err
 	}
 	out.Cases = len(cases)
